@@ -1071,7 +1071,7 @@ f_set_reset (void)
   else if (CONFIG_INT (__TIME_TO_RESET__) > 0)
     {
       sp->u.ob->next_reset = current_time + CONFIG_INT (__TIME_TO_RESET__) / 2
-        + rand () % (CONFIG_INT (__TIME_TO_RESET__) / 2);
+        + (CONFIG_INT (__TIME_TO_RESET__) > 1 ? rand () % (CONFIG_INT (__TIME_TO_RESET__) / 2) : 0);
       free_object ((sp--)->u.ob, "f_set_reset:2");
     }
 }
